@@ -6,8 +6,12 @@
     * C02a on the composition: the model reads the random streams only at the seeds the request names;
     * frame over any bias list: alternatives and their considered / not-considered split never change,
       criteria disappear or appear only as the bias reports say;
-    * the listener seams that make additions fail for OWA and Choquet (registered findings).
-  The per-bias theorems are in C15–C19; helper lemmas in Lemmas/Decide*.lean.
+    * the listener seams that make additions fail for OWA and Choquet (registered findings);
+    * progress ("answered with a ranking, not with an error"): `Evaluate` of each of the seven methods on coherent
+      states under exact side conditions (K1), whole sequences of omission / reversal / fatigue for every method and
+      every ordering through `Evaluate` (`decide_total`, K2), the criterion-adding biases as first state-changing
+      bias for the five admitting methods (K3), and the biases list of the response (K4, corollaries of C08).
+  The per-bias theorems are in C15–C19; helper lemmas in Lemmas/Decide*.lean (progress: Lemmas/DecideProgress*.lean).
 -/
 import Rdm.Model.Listener
 import Rdm.Spec.C07
@@ -16,6 +20,16 @@ import Rdm.Lemmas.DecideCoherent
 import Rdm.Lemmas.DecideChoquet
 import Rdm.Lemmas.DecideTotal
 import Rdm.Lemmas.DecideValues
+import Rdm.Lemmas.DecideProgressBasic
+import Rdm.Lemmas.DecideProgressEval
+import Rdm.Lemmas.DecideProgressRat
+import Rdm.Lemmas.DecideProgressOrder
+import Rdm.Lemmas.DecideProgressLoop
+import Rdm.Lemmas.DecideProgressAdd
+import Rdm.Lemmas.DecideProgressAnchor
+import Rdm.Lemmas.DecideProgressSeq
+import Rdm.Lemmas.DecideProgressExample
+import Rdm.Props.C08
 import Rdm.Props.C15
 namespace Rdm.Props.C07
 open Rdm
@@ -352,7 +366,10 @@ While proving it: coherence as the property states it (a value for *every curren
 the weighted sum — its listener's ranking looks up the weight of every criterion *an alternative has a value
 for* (`PrepareCumulatedWeightsMap` ranges over the alternative's map), so a request whose alternatives carry a
 value for an undeclared criterion is accepted without biases and rejected with any ranking-based bias
-(confirmed on the real code; the e2e tie generates such requests, class `undeclared-value`). -/
+(confirmed on the real code; the e2e tie generates such requests, class `undeclared-value`).
+
+The theorems of this section are kept as they were; their stronger siblings (all methods, all orderings, through
+`Evaluate`, adding biases) are in the section "progress, continued (WP-K)" at the end of the file. -/
 
 /-- fatigue cannot fail on a coherent state (every method): registered function, non-zero bounding scale,
     one random number per alternative and criterion -/
@@ -428,5 +445,507 @@ example (N : Nat) : TotalEntry (α := Rat) N ⟨Facts.biasFatigue, 1, .fatigue (
   refine Or.inl ⟨rfl, .const (1 / 8), ⟨-1, false⟩, 3, rfl, ?_, by decide +kernel⟩
   intro n h
   cases h
+
+/-! ## progress, continued (WP-K): `Evaluate` on coherent states, all methods × all orderings, adding biases
+
+Vocabulary of the hypotheses (all decidable, defined in Lemmas/DecideProgress*.lean):
+  * `prog_exactValues d`      — every known alternative holds values for declared criteria only, each once
+                                (Go maps have unique keys; a value for an undeclared criterion is the registered
+                                class `undeclared-value`);
+  * `prog_ready d`            — what `Evaluate` of the state's method needs beyond coherence (`prog_methodReady`);
+  * `prog_paramsDeclared`     — the parameter maps are keyed by current criteria only;
+  * streams: every number in `[0,1]` resp. `[0,1)` (the contract of `utils.RandomBasedSeedValueGenerator`) and
+    prefixes at least `prog_demand` long.
+The arithmetic-dependent statements (ELECTRE III termination, coefficient levels, uniform shuffle) are over `Rat`. -/
+
+/-! ### K1 — `Evaluate` never fails on a coherent state (per method, exact conditions) -/
+
+/-- **weightedSum**: on a coherent state `Evaluate` returns a ranking iff nothing is missing, and nothing is missing
+    when the weights name current criteria only.  Excluded point: a weight for a criterion that is not current —
+    `WeightedSum` reads `CriterionValue` of every *weighted* criterion and panics on the missing value
+    (model: `throw "missing-value:…"`). -/
+theorem evaluate_never_fails_on_coherent_state_weightedSum {o : List (WCrit α) → List (WCrit α)} {g : Int → Draws α}
+    {d : DMP α} {wc : List (WCrit α)} (hmp : d.mp = .ws wc) (hc : Spec.C07.coherent d = true)
+    (hw : (wc.all fun x => d.crit.any (·.id == x.crit.id)) = true) : ∃ r, evaluateWith o g d = .ok r := by
+  apply prog_evaluate_utility ((coherent_iff _).mp hc)
+  unfold prog_utilityReady
+  rw [hmp]
+  simpa only [List.all_eq_true, List.any_eq_true, beq_iff_eq] using hw
+
+/-- **owa**: coherent + exact values.  Excluded point: an alternative with a value for an undeclared criterion —
+    `OWA` compares the number of values with the number of weights and panics (model: `"owa-count-mismatch"`). -/
+theorem evaluate_never_fails_on_coherent_state_owa {o : List (WCrit α) → List (WCrit α)} {g : Int → Draws α}
+    {d : DMP α} {wc : List (WCrit α)} (hmp : d.mp = .owa wc) (hc : Spec.C07.coherent d = true)
+    (hex : prog_exactValues d = true) : ∃ r, evaluateWith o g d = .ok r := by
+  apply prog_evaluate_utility ((coherent_iff _).mp hc)
+  unfold prog_utilityReady
+  rw [hmp]
+  exact (prog_exactValues_iff _).mp hex
+
+/-- **choquetIntegral**: coherent + exact values.  The coverage clause of `Spec.C07.covers` (a capacity for every
+    non-empty subset of the current criteria, under the order-insensitive key) is exactly what the integral looks
+    up: every suffix of the value-sorted criteria of an alternative.  Excluded point: a value for an undeclared
+    criterion makes the integral ask for a capacity `parse` never admitted — `getWeightForCriteriaUnion` panics
+    (model: `"choquet-missing:…"`). -/
+theorem evaluate_never_fails_on_coherent_state_choquet {o : List (WCrit α) → List (WCrit α)} {g : Int → Draws α}
+    {d : DMP α} {w : KMap α} {cs : List (Crit α)} (hmp : d.mp = .choquet w cs) (hc : Spec.C07.coherent d = true)
+    (hex : prog_exactValues d = true) : ∃ r, evaluateWith o g d = .ok r := by
+  apply prog_evaluate_utility ((coherent_iff _).mp hc)
+  unfold prog_utilityReady
+  rw [hmp]
+  exact (prog_exactValues_iff _).mp hex
+
+/-- **electreIII** (over `Rat`): coherent, at least one considered alternative and one criterion, thresholds of the
+    current criteria in the C05 domain (constant, `0 ≤ q < p < v`, `k > 0` — inside what `validateParameters`
+    accepts), distillation function accepted by `getDistillationFunc`.  Then the credibilities are in [0,1] and
+    both distillations finish within the model's fuel (C05).  Excluded points: no considered alternative —
+    `Matrix.Max` panics on the empty matrix (model: `"matrix is empty"`); no criterion — the concordance is `0/0`
+    (NaN in Go; the `Rat` model would return 0, so the case is left out rather than claimed); thresholds outside
+    the C05 domain — credibilities can leave [0,1] and termination of `distillate` is not covered. -/
+theorem evaluate_never_fails_on_coherent_state_electreIII {o : List (WCrit Rat) → List (WCrit Rat)}
+    {g : Int → Draws Rat} {d : DMP Rat} {ec : KMap (ECrit Rat)} {dist : LinFun Rat} (hmp : d.mp = .electre ec dist)
+    (hc : Spec.C07.coherent d = true) (hco : d.co ≠ []) (hne : d.crit ≠ [])
+    (hdom : prog_electreInDomain d.crit ec = true) (hdist : validDistillation dist = true) :
+    ∃ r, evaluateWith o g d = .ok r :=
+  prog_evaluate_electre hmp ((coherent_iff _).mp hc) hco hne hdom hdist
+
+/-- **majorityHeuristic**: coherent, registered draw policy (empty = the first), usable current choice (absent with
+    a considered alternative, or the id of a known alternative), and `2·|considered|` numbers in the method's
+    stream (one per position of the shuffle, one per comparison for the `random` policy).  Excluded points:
+    unknown policy — `drawResolver` panics; empty considered list without current choice — index `[0]` panics;
+    unknown current choice — `FetchAlternative` panics; short stream — the model's `"draws-exhausted"` (the real
+    generator is unbounded). -/
+theorem evaluate_never_fails_on_coherent_state_majority {o : List (WCrit α) → List (WCrit α)} {g : Int → Draws α}
+    {d : DMP α} {w : KMap α} {cur : String} {seed : Int} {rnd : Bool} {dr : String}
+    (hmp : d.mp = .majority w cur seed rnd dr) (hc : Spec.C07.coherent d = true)
+    (hpol : prog_policyKnown dr) (hcur : prog_curKnown d cur) (hds : 2 * d.co.length ≤ (g seed).length) :
+    ∃ r, evaluateWith o g d = .ok r :=
+  prog_evaluate_majority hmp ((coherent_iff _).mp hc) hpol hcur hds
+
+/-- **aspectEliminationHeuristic** (over `Rat`): coherent, levels function registered with parameters its
+    `Validate` accepts (`prog_levelsReady`), an examination order that only permutes (`sortCriteria`), one number
+    per position of the alternatives shuffle.  An empty considered list is fine (`checkWithinSatisfactionLevels`
+    returns at once).  Excluded points: unknown function — `Find` panics; coefficient outside (0,1) or bounds
+    outside their interval — `Validate` panics. -/
+theorem evaluate_never_fails_on_coherent_state_aspectElimination {o : List (WCrit Rat) → List (WCrit Rat)}
+    {g : Int → Draws Rat} {d : DMP Rat} {fn : String} {lv : Levels Rat} {seed : Int} {w : KMap Rat} {rnd : Bool}
+    (hmp : d.mp = .aspect fn lv seed w rnd) (hc : Spec.C07.coherent d = true)
+    (hlv : prog_levelsReady aspectSources fn lv = true) (hord : ∀ l, ∀ x ∈ o l, x ∈ l)
+    (hds : rnd = true → d.co.length - 1 ≤ (g seed).length) : ∃ r, evaluateWith o g d = .ok r := by
+  have hcoh := (coherent_iff _).mp hc
+  have hcov := hcoh.covers
+  rw [hmp] at hcov
+  simp only [Spec.C07.covers, Bool.and_eq_true, List.all_eq_true] at hcov
+  obtain ⟨L, hL, _⟩ := prog_levelsOf_total (d := d) hcoh hlv (by
+    intro ts hts t ht c hcm
+    rw [hts] at hcov
+    have := hcov.2
+    simp only [List.all_eq_true] at this
+    exact this t ht c hcm)
+  refine prog_evaluate_aspect hmp hcoh ⟨L, ?_⟩ hord hds
+  unfold aspectLevels; rw [hmp]; exact hL
+
+/-- **satisfactionHeuristic** (over `Rat`): coherent, registered levels function with accepted parameters, usable
+    current choice, one number per position of the shuffle.  Every level the sources hand out names every current
+    criterion (coefficient sources build it from the criteria; `Initialize` of the thresholds source checks it —
+    the coverage clause), so `ZipWithWeights` never misses.  Excluded points as for majority / aspect elimination. -/
+theorem evaluate_never_fails_on_coherent_state_satisfaction {o : List (WCrit Rat) → List (WCrit Rat)}
+    {g : Int → Draws Rat} {d : DMP Rat} {fn : String} {lv : Levels Rat} {seed : Int} {cur : String} {rnd : Bool}
+    (hmp : d.mp = .satisf fn lv seed cur rnd) (hc : Spec.C07.coherent d = true)
+    (hlv : prog_levelsReady satisfactionSources fn lv = true) (hcur : prog_curKnown d cur)
+    (hds : rnd = true → d.co.length - 1 ≤ (g seed).length) : ∃ r, evaluateWith o g d = .ok r := by
+  have hcoh := (coherent_iff _).mp hc
+  have hcov := hcoh.covers
+  rw [hmp] at hcov
+  simp only [Spec.C07.covers] at hcov
+  obtain ⟨L, hL, hok⟩ := prog_levelsOf_total (d := d) hcoh hlv (by
+    intro ts hts t ht c hcm
+    rw [hts] at hcov
+    simp only [List.all_eq_true] at hcov
+    exact hcov t ht c hcm)
+  refine prog_evaluate_satisf hmp hcoh ⟨L, ?_, hok⟩ hcur hds
+  unfold satisfactionLevels; rw [hmp]; exact hL
+
+/-- **all seven in one statement**: a coherent state that is `prog_ready` (the per-method conditions above as one
+    decidable predicate), with exact values where the method needs them (weightedSum only for its listener, owa,
+    choquetIntegral), is evaluated by its method — for every examination order that permutes and streams with
+    `2·|considered|` numbers. -/
+theorem evaluate_never_fails_on_coherent_state {o : List (WCrit Rat) → List (WCrit Rat)} {g : Int → Draws Rat}
+    {d : DMP Rat} (hc : Spec.C07.coherent d = true) (hex : prog_needsExact d.mp = true → prog_exactValues d = true)
+    (hr : prog_ready d = true) (hord : ∀ l, ∀ x ∈ o l, x ∈ l) (hds : ∀ k, 2 * d.co.length ≤ (g k).length) :
+    ∃ r, evaluateWith o g d = .ok r :=
+  prog_evaluate_total ((coherent_iff _).mp hc) (fun h => (prog_exactValues_iff _).mp (hex h)) hr hord hds
+
+/-- the examination order of the model (`sortCriteriaDesc`) only permutes -/
+theorem sortCriteriaDesc_only_permutes (l : List (WCrit α)) : ∀ x ∈ sortCriteriaDesc l, x ∈ l :=
+  fun _ hx => (List.mergeSort_perm _ _).mem_iff.mp hx
+
+/-- the hypotheses of the K1 theorems are satisfiable — electreIII: coherent, ready -/
+example : Spec.C07.coherent (α := Rat)
+      ⟨[], [⟨"a", [("c0", 1), ("c1", 2)]⟩, ⟨"b", [("c0", 3), ("c1", 1)]⟩], [⟨"c0", "gain", none⟩, ⟨"c1", "cost", none⟩],
+       .electre [("c0", ⟨2, ⟨0, 1/2⟩, ⟨0, 1⟩, ⟨0, 3⟩⟩), ("c1", ⟨1, ⟨0, 0⟩, ⟨0, 0⟩, ⟨0, 0⟩⟩)] defaultDistillation⟩ = true ∧
+    prog_ready (⟨[], [⟨"a", [("c0", 1), ("c1", 2)]⟩, ⟨"b", [("c0", 3), ("c1", 1)]⟩],
+       [⟨"c0", "gain", none⟩, ⟨"c1", "cost", none⟩],
+       .electre [("c0", ⟨2, ⟨0, 1/2⟩, ⟨0, 1⟩, ⟨0, 3⟩⟩), ("c1", ⟨1, ⟨0, 0⟩, ⟨0, 0⟩, ⟨0, 0⟩⟩)] defaultDistillation⟩ : DMP Rat)
+      = true := by decide +kernel
+
+/-- … majority with the `random` policy and a current choice among the not-considered alternatives -/
+example : prog_ready (⟨[⟨"z", [("c0", 0)]⟩], [⟨"a", [("c0", 1)]⟩], [⟨"c0", "gain", none⟩],
+      .majority [("c0", 1)] "z" 7 true Facts.drawRandom⟩ : DMP Rat) = true := by decide +kernel
+
+/-- … aspect elimination with the additive coefficient source, satisfaction with explicit thresholds -/
+example : prog_ready (⟨[], [⟨"a", [("c0", 1)]⟩], [⟨"c0", "gain", none⟩],
+      .aspect Facts.levelsAdditive (.coef (1/4) 1 0) 7 [("c0", 1)] false⟩ : DMP Rat) = true ∧
+    prog_ready (⟨[], [⟨"a", [("c0", 1)]⟩], [⟨"c0", "gain", none⟩],
+      .satisf Facts.levelsThresholds (.thresholds [[("c0", 2)], [("c0", 1)]]) 7 "" false⟩ : DMP Rat) = true := by
+  decide +kernel
+
+/-- … exact values (owa / choquet) -/
+example : prog_exactValues (α := Rat)
+    ⟨[], [⟨"a", [("c0", 1), ("c1", 2)]⟩], [⟨"c0", "gain", none⟩, ⟨"c1", "gain", none⟩],
+     .choquet [("c0", 1/2), ("c1", 1/2), ("c0,c1", 1)] [⟨"c0", "gain", none⟩, ⟨"c1", "gain", none⟩]⟩ = true := by
+  decide +kernel
+
+/-! ### K2 — every listener ranking, every ordering, omission for every method, whole sequences through `Evaluate` -/
+
+/-- `RankCriteriaAscending` of every listener is total on a coherent state (with exact values for weightedSum /
+    owa / choquetIntegral: `PrepareCumulatedWeightsMap` looks up a weight for every value key,
+    `decomposeWeights` a capacity for every set of value keys). -/
+theorem listener_ranking_never_fails (eps : α) {d : DMP α} (hc : Spec.C07.coherent d = true)
+    (hex : prog_needsExact d.mp = true → prog_exactValues d = true) : ∃ r, rankAsc eps d = .ok r :=
+  prog_rankAsc_total eps ((coherent_iff _).mp hc) (fun h => (prog_exactValues_iff _).mp (hex h))
+
+/-- all five registered orderings (and the default) are total for every method: the two roulette orderings take
+    one number per criterion, the uniform shuffle one per criterion but the first, each in [0,1] (a number outside
+    would index out of range: Go panics, model `"index-out-of-range"`).  Sibling of
+    `deterministic_ordering_never_fails_partial` without its restrictions. -/
+theorem ordering_never_fails {eps : Rat} {o : String} {d : DMP Rat} {dr : Draws Rat}
+    (hc : Spec.C07.coherent d = true) (hex : prog_needsExact d.mp = true → prog_exactValues d = true)
+    (ho : prog_knownOrdering o) (hlen : d.crit.length ≤ dr.length) (hu : ∀ u ∈ dr, 0 ≤ u ∧ u ≤ 1) :
+    ∃ ordered, orderCriteria eps o d dr = .ok ordered :=
+  prog_orderCriteria_total ((coherent_iff _).mp hc) (fun h => (prog_exactValues_iff _).mp (hex h)) ho hlen hu
+
+/-- **what breaks for Choquet's `OnCriteriaRemoved`? Nothing.**  It fetches one capacity per non-empty subset of
+    the kept criteria; each is, up to the order of the ids inside the key (which `criterionKey` sorts away), one
+    of the capacities `Spec.C07.covers` demands for the current criteria. -/
+theorem choquet_onCriteriaRemoved_never_fails {crit left : List (Crit α)} {w : KMap α} {cs : List (Crit α)}
+    (hcov : Spec.C07.covers crit (.choquet w cs) = true) (hn : (crit.map (·.id)).Nodup)
+    (hln : (left.map (·.id)).Nodup) (hsub : ∀ c ∈ left, c ∈ crit) :
+    ∃ mp', onRemoved (.choquet w cs) left = .ok mp' :=
+  prog_onRemoved_choquet_total hcov hn hln hsub
+
+/-- criteria omission after the split cannot fail for ANY method (sibling of
+    `omission_never_fails_after_split_partial` without `notChoquet`; kept criteria duplicate-free, as every
+    ordering delivers them) -/
+theorem omission_never_fails_after_split {c : SplitCond α} {ordered om kept : List (Crit α)} {cur : DMP α}
+    (hc : Spec.C07.coherent cur = true) (hk : listenerKnowsLevels cur.mp = true)
+    (hs : c.split ordered = .ok (om, kept)) (hkn : (kept.map (·.id)).Nodup) (hsub : ∀ x ∈ kept, x ∈ cur.crit) :
+    ∃ res, omitCriteria c ordered cur = .ok (res, om) :=
+  prog_omit_total ((coherent_iff _).mp hc) hk hs hkn hsub
+
+/-- **`pipeline_total`** (sibling of `decide_total_partial`, all seven methods, all five orderings): an accepted
+    request whose parsed parameters cover its criteria, with exact values where the method needs them and a
+    levels function the listener registry knows, whose enabled biases are omission / reversal / fatigue with
+    valid props (`ProgEntry`), is carried through `processBiases` without an error whichever biases fire, and
+    the state handed to the method is coherent.  Streams of the seeds the request names: numbers in [0,1],
+    `prog_demand` of them per seed (other seeds are never read: `pipeline_reads_only_request_seeds`). -/
+theorem pipeline_total {exp : Rat → Rat} {req : Request Rat} {g : Int → Draws Rat} {params : DMP Rat}
+    {chosen : List (Chosen Rat (BProps Rat))} (hprep : prepare req = .ok (params, chosen))
+    (hcov : Spec.C07.covers params.crit params.mp = true)
+    (hex : prog_needsExact params.mp = true → prog_exactValues params = true)
+    (hk : listenerKnowsLevels params.mp = true)
+    (hall : ∀ b ∈ chosen, ProgEntry false params.crit.length b)
+    (hu : ∀ k ∈ req.seeds, ∀ u ∈ g k, 0 ≤ u ∧ u ≤ 1) (hd : chosen.length ≤ (g req.biasSeed).length)
+    (hg : ∀ k ∈ req.seeds, prog_demand params ≤ (g k).length) :
+    ∃ fin outs, pipeline exp req g = .ok (fin, outs) ∧ Spec.C07.coherent fin = true := by
+  -- outside the seeds the request names the streams are never read: pad them
+  have hb : req.biasSeed ∈ req.seeds := by unfold Request.seeds; simp
+  have hcongr := pipeline_reads_only_request_seeds exp req g
+    (fun k => if k ∈ req.seeds then g k else List.replicate (prog_demand params) 0)
+    (fun k hk => by simp only [hk, if_true])
+  rw [hcongr]
+  obtain ⟨fin, outs, h, hc⟩ := prog_pipeline_total (exp := exp)
+    (g := fun k => if k ∈ req.seeds then g k else List.replicate (prog_demand params) 0) hprep hcov hex hk hall
+    (fun k u hu' => by
+      by_cases hk' : k ∈ req.seeds
+      · simp only [hk', if_true] at hu'; exact hu k hk' u hu'
+      · simp only [hk', if_false] at hu'; rw [List.eq_of_mem_replicate hu']; norm_num)
+    (by simp only [hb, if_true]; exact hd)
+    (fun k => by
+      by_cases hk' : k ∈ req.seeds
+      · simp only [hk', if_true]; exact hg k hk'
+      · simp only [hk', if_false, List.length_replicate]; exact Nat.le_refl _)
+  exact ⟨fin, outs, h, (coherent_iff _).mpr hc⟩
+
+/-- the entries of `decide_total_partial` are entries of `pipeline_total`: the new theorem subsumes the old one -/
+theorem totalEntry_is_progEntry {N : Nat} {b : Chosen Rat (BProps Rat)} (h : TotalEntry N b) : ProgEntry false N b := by
+  rcases h with h | ⟨hn | hn, c, o, s, hp, hv, ho, hpiv⟩
+  · exact Or.inl h
+  · refine Or.inr (Or.inr ⟨hn, c, o, s, hp, hv, ?_, hpiv, fun h => by cases h⟩)
+    rcases ho with h | h | h
+    · exact Or.inl h
+    · exact Or.inr (Or.inl h)
+    · exact Or.inr (Or.inr (Or.inl h))
+  · refine Or.inr (Or.inl ⟨hn, c, o, s, hp, hv, ?_, hpiv⟩)
+    rcases ho with h | h | h
+    · exact Or.inl h
+    · exact Or.inr (Or.inl h)
+    · exact Or.inr (Or.inr (Or.inl h))
+
+/-- **`decide_total`** — the progress half of C07 for the non-adding biases: an accepted request whose parsed
+    parameters cover its criteria and are `prog_ready`, with exact values where the method needs them, whose
+    enabled biases are omission / reversal / fatigue with valid props and any registered ordering, is ANSWERED:
+    `MakeDecision` returns a response (ranking + biases list), whichever biases fire, for each of the seven
+    methods; the state that reached the method is coherent.  Under electreIII an omission must leave a
+    criterion (`ProgEntry true`; the property's domain excludes a bias that removes every criterion).
+    Streams of the seeds the request names (the others are never read): numbers in [0,1], `prog_demand` of them
+    per seed, one per enabled bias for the activation.
+    What is not covered (see K3 and the registered findings): sequences containing a criterion-adding bias. -/
+theorem decide_total {exp : Rat → Rat} {o : List (WCrit Rat) → List (WCrit Rat)} {req : Request Rat}
+    {g : Int → Draws Rat} {params : DMP Rat} {chosen : List (Chosen Rat (BProps Rat))}
+    (hprep : prepare req = .ok (params, chosen)) (hcov : Spec.C07.covers params.crit params.mp = true)
+    (hex : prog_needsExact params.mp = true → prog_exactValues params = true) (hr : prog_ready params = true)
+    (hall : ∀ b ∈ chosen, ProgEntry (prog_needsCriterion params.mp) params.crit.length b)
+    (hord : ∀ l, ∀ x ∈ o l, x ∈ l) (hu : ∀ k ∈ req.seeds, ∀ u ∈ g k, 0 ≤ u ∧ u ≤ 1)
+    (hd : chosen.length ≤ (g req.biasSeed).length) (hg : ∀ k ∈ req.seeds, prog_demand params ≤ (g k).length) :
+    ∃ resp, decideWith exp o req g = .ok resp ∧ Spec.C07.coherent resp.final = true := by
+  have hb : req.biasSeed ∈ req.seeds := by unfold Request.seeds; simp
+  have hcongr := decideWith_reads_only_request_seeds exp o req g
+    (fun k => if k ∈ req.seeds then g k else List.replicate (prog_demand params) 0)
+    (fun k hk => by simp only [hk, if_true])
+  rw [hcongr]
+  obtain ⟨resp, h, hc⟩ := prog_decideWith_total (exp := exp) (o := o)
+    (g := fun k => if k ∈ req.seeds then g k else List.replicate (prog_demand params) 0) hprep hcov hex hr hall hord
+    (fun k u hu' => by
+      by_cases hk' : k ∈ req.seeds
+      · simp only [hk', if_true] at hu'; exact hu k hk' u hu'
+      · simp only [hk', if_false] at hu'; rw [List.eq_of_mem_replicate hu']; norm_num)
+    (by simp only [hb, if_true]; exact hd)
+    (fun k => by
+      by_cases hk' : k ∈ req.seeds
+      · simp only [hk', if_true]; exact hg k hk'
+      · simp only [hk', if_false, List.length_replicate]; exact Nat.le_refl _)
+  exact ⟨resp, h, (coherent_iff _).mpr hc⟩
+
+/-- … and for `Rdm.decide` itself (seed table, the model's examination order): the table needs an entry only for
+    the seeds the request names -/
+theorem decide_total_seed_table {exp : Rat → Rat} {req : Request Rat} {seeds : Seeds Rat} {params : DMP Rat}
+    {chosen : List (Chosen Rat (BProps Rat))} (hprep : prepare req = .ok (params, chosen))
+    (hcov : Spec.C07.covers params.crit params.mp = true)
+    (hex : prog_needsExact params.mp = true → prog_exactValues params = true) (hr : prog_ready params = true)
+    (hall : ∀ b ∈ chosen, ProgEntry (prog_needsCriterion params.mp) params.crit.length b)
+    (hu : ∀ k ∈ req.seeds, ∀ u ∈ genOf seeds k, 0 ≤ u ∧ u ≤ 1)
+    (hd : chosen.length ≤ (genOf seeds req.biasSeed).length)
+    (hg : ∀ k ∈ req.seeds, prog_demand params ≤ (genOf seeds k).length) :
+    ∃ resp, Rdm.decide exp req seeds = .ok resp ∧ Spec.C07.coherent resp.final = true :=
+  decide_total hprep hcov hex hr hall sortCriteriaDesc_only_permutes hu hd hg
+
+/-- **the hypotheses of `decide_total_seed_table` are jointly satisfiable** — discharged on a concrete request
+    (Lemmas/DecideProgressExample.lean): electreIII, two criteria, two alternatives, `criteriaOmission` with the
+    `random` ordering then `fatigue` with probability ½, a seed table with eight numbers for each of the three
+    seeds the request names.  So that request is answered, by the theorem. -/
+example : ∃ resp, Rdm.decide (fun x => x) prog_exReq prog_exSeeds = .ok resp ∧
+    Spec.C07.coherent resp.final = true :=
+  decide_total_seed_table prog_exPrepare (by decide +kernel) (fun h => by cases h) (by decide +kernel)
+    prog_exEntries (fun _ hk => (prog_exStreams hk).1) (by decide +kernel) (fun _ hk => (prog_exStreams hk).2)
+
+/-- **`decide_total` with inline anchoring** — four of the six biases: the same statement for sequences that may
+    also contain anchoring with the inline applier, its props valid against the request's known alternatives
+    (`ProgEntryA`: `prog_anchPropsOk`).  Inline anchoring reads no random number, keeps criteria and parameters,
+    and hands on alternatives that again hold exactly the current criteria.
+    Missing for the full progress half (all six biases): sequences containing concealment, newCriterion anchoring
+    or mixing — only their first step is covered (K3; mixing after a state change and OWA / Choquet additions are
+    registered findings, i.e. the full statement is false on the code). -/
+theorem decide_total_with_inline_anchoring {exp : Rat → Rat} {o : List (WCrit Rat) → List (WCrit Rat)}
+    {req : Request Rat} {g : Int → Draws Rat} {params : DMP Rat} {chosen : List (Chosen Rat (BProps Rat))}
+    (hprep : prepare req = .ok (params, chosen)) (hcov : Spec.C07.covers params.crit params.mp = true)
+    (hex : prog_needsExact params.mp = true → prog_exactValues params = true) (hr : prog_ready params = true)
+    (hall : ∀ b ∈ chosen, ProgEntryA params (prog_needsCriterion params.mp) params.crit.length b)
+    (hord : ∀ l, ∀ x ∈ o l, x ∈ l) (hu : ∀ k ∈ req.seeds, ∀ u ∈ g k, 0 ≤ u ∧ u ≤ 1)
+    (hd : chosen.length ≤ (g req.biasSeed).length) (hg : ∀ k ∈ req.seeds, prog_demand params ≤ (g k).length) :
+    ∃ resp, decideWith exp o req g = .ok resp ∧ Spec.C07.coherent resp.final = true := by
+  have hb : req.biasSeed ∈ req.seeds := by unfold Request.seeds; simp
+  have hcongr := decideWith_reads_only_request_seeds exp o req g
+    (fun k => if k ∈ req.seeds then g k else List.replicate (prog_demand params) 0)
+    (fun k hk => by simp only [hk, if_true])
+  rw [hcongr]
+  obtain ⟨resp, h, hc⟩ := prog_decideWithA_total (exp := exp) (o := o)
+    (g := fun k => if k ∈ req.seeds then g k else List.replicate (prog_demand params) 0) hprep hcov hex hr hall hord
+    (fun k u hu' => by
+      by_cases hk' : k ∈ req.seeds
+      · simp only [hk', if_true] at hu'; exact hu k hk' u hu'
+      · simp only [hk', if_false] at hu'; rw [List.eq_of_mem_replicate hu']; norm_num)
+    (by simp only [hb, if_true]; exact hd)
+    (fun k => by
+      by_cases hk' : k ∈ req.seeds
+      · simp only [hk', if_true]; exact hg k hk'
+      · simp only [hk', if_false, List.length_replicate]; exact Nat.le_refl _)
+  exact ⟨resp, h, (coherent_iff _).mpr hc⟩
+
+/-- … its hypotheses discharged on the concrete request with an inline anchoring (to the nadir of alternative `a`)
+    in front of the omission -/
+example : ∃ resp, Rdm.decide (fun x => x) prog_exReqA prog_exSeedsA = .ok resp ∧
+    Spec.C07.coherent resp.final = true :=
+  decide_total_with_inline_anchoring prog_exPrepareA (by decide +kernel) (fun h => by cases h) (by decide +kernel)
+    prog_exEntriesA sortCriteriaDesc_only_permutes (fun _ hk => (prog_exStreamsA hk).1) (by decide +kernel)
+    (fun _ hk => (prog_exStreamsA hk).2)
+
+/-- the hypotheses on an omission entry are satisfiable for every bound `N`: the default clamps with ratio ½ keep
+    the pivot in `[0, n]`, and below `n` for `n > 0` (so also under electreIII) -/
+example (N : Nat) (hN : (N : Int) ≤ maxInt64) :
+    ProgEntry true N ⟨Facts.biasOmission, 1, .split ⟨1 / 2, 0, maxInt64⟩ Facts.orderingStrongestByProbability 7⟩ := by
+  obtain ⟨h1, h2⟩ := prog_pivot_half N hN
+  exact Or.inr (Or.inr ⟨rfl, ⟨1 / 2, 0, maxInt64⟩, Facts.orderingStrongestByProbability, 7, rfl, by decide +kernel,
+    Or.inr (Or.inr (Or.inr (Or.inr (Or.inr rfl)))), h1, fun _ => h2⟩)
+
+/-- … and on the streams: a constant stream of ½s of any length is in [0,1) -/
+example (n : Nat) : ∀ u ∈ List.replicate n (1 / 2 : Rat), 0 ≤ u ∧ u < 1 := by
+  intro u hu
+  rw [List.eq_of_mem_replicate hu]
+  norm_num
+
+/-! ### K3 — the criterion-adding biases as FIRST state-changing bias (five admitting methods) -/
+
+/-- `OnCriterionAdded` + `Merge` of the five admitting listeners accept a criterion whose id the parameters do not
+    name yet, with a current reference criterion and `prog_listenerDraws` numbers (one; aspect elimination /
+    satisfaction: one per explicit threshold level more).  Excluded point: parameters that already hold the key —
+    `Weights.Merge` panics (`"already-exists"`); that is what OWA / Choquet always run into
+    (`owa_merge_always_fails`, `choquet_merge_always_fails`). -/
+theorem listener_accepts_fresh_criterion {mp : MParams α} {crit : List (Crit α)} {newC ref : Crit α} {gen : Draws α}
+    (hcov : Spec.C07.covers crit mp = true) (hadm : admitsAdditions mp = true)
+    (hk : listenerKnowsLevels mp = true) (href : ref ∈ crit) (hfresh : prog_paramsFresh mp newC.id = true)
+    (hgen : prog_listenerDraws mp ≤ gen.length) :
+    ∃ add gen' mp', onAdded mp newC ref gen = .ok (add, gen') ∧ mergeParams mp add = .ok mp' :=
+  prog_addition_total hcov hadm hk href hfresh hgen
+
+/-- **criteria concealment as the first state-changing bias never fails** for the five admitting methods:
+    coherent state (an accepted request with covering parameters: `accepted_request_starts_coherent`) with at
+    least one criterion, exact values and parameters keyed by current criteria (so that the new id
+    `__concealedCriterion__…` collides with nothing), a levels function the listener registry knows, and the
+    documented validity of the props (`prog_concealPropsOk`: `newCriterionScaling ≠ 0`,
+    `allowedValuesRangeScaling ≠ 0`, `referenceCriterionType` registered or absent).  Streams in [0,1): one
+    number for the reference criterion, one per known alternative plus the listener's for the values.
+    The result is coherent again.  Excluded points: the two zero scalings and an unknown reference type are the
+    panics of `parseProps` / `FromParams` / `ForParams`; no criterion — `FindCriterionInRange` indexes an empty
+    slice. -/
+theorem concealment_as_first_bias_never_fails {exp : Rat → Rat} {g : Int → Draws Rat} {cur : DMP Rat}
+    {p : Props Rat} (hc : Spec.C07.coherent cur = true) (hex : prog_exactValues cur = true)
+    (hadm : admitsAdditions cur.mp = true) (hk : listenerKnowsLevels cur.mp = true)
+    (hdecl : prog_paramsDeclared cur.mp cur.crit = true) (hne : cur.crit ≠ [])
+    (hp : prog_concealPropsOk p = true) (hu : ∀ k ∈ (BProps.flat p).seeds, ∀ u ∈ g k, 0 ≤ u ∧ u < 1)
+    (hg : ∀ k ∈ (BProps.flat p).seeds,
+      cur.co.length + cur.nc.length + prog_listenerDraws cur.mp + 1 ≤ (g k).length) :
+    ∃ res rep, applyBias exp g Facts.biasConcealment (.flat p) cur cur = .ok (res, rep) ∧
+      Spec.C07.coherent res = true := by
+  obtain ⟨res, rep, h⟩ := prog_conceal_total (rd := g (p.seed "newCriterionRandomSeed"))
+    (gen := g (p.seed "randomSeed")) ((coherent_iff _).mp hc) ((prog_exactValues_iff _).mp hex) hadm hk hdecl hne hp
+    (by have := hg (p.seed "newCriterionRandomSeed") (by simp [BProps.seeds]); omega)
+    (hu _ (by simp [BProps.seeds])) (by have := hg (p.seed "randomSeed") (by simp [BProps.seeds]); omega)
+  have happly : applyBias exp g Facts.biasConcealment (.flat p) cur cur = .ok (res, .conceal rep) := by
+    rw [prog_applyBias_conceal_eq, h]; rfl
+  exact ⟨res, .conceal rep, happly, concealment_preserves_coherence hc hadm happly⟩
+
+/-- **anchoring with the inline applier never fails** on a coherent state — every method, first bias or not
+    (`Anchoring.Apply` ignores `original`) — under the documented validity of its props (`prog_anchPropsOk`: at
+    least one anchoring alternative, all known; registered loss / gain function, reference-point evaluator and
+    applier; non-zero bounding scale).  No random number is read. -/
+theorem inline_anchoring_never_fails {exp : Rat → Rat} {g : Int → Draws Rat} {orig cur : DMP Rat}
+    {p : AnchProps Rat} (hc : Spec.C07.coherent cur = true) (hp : prog_anchPropsOk cur p = true)
+    (hfn : p.applier.fn = Facts.anchoringInline) :
+    ∃ res rep, applyBias exp g Facts.biasAnchoring (.anch p) orig cur = .ok (res, rep) ∧
+      Spec.C07.coherent res = true := by
+  obtain ⟨res, rep, h⟩ := prog_anchoringApply_total (exp := exp)
+    (rd := g (p.applier.params.seed "newCriterionRandomSeed")) (gens := (anchGenSeeds p).map g)
+    ((coherent_iff _).mp hc) hp (Or.inl hfn)
+  have happly : applyBias exp g Facts.biasAnchoring (.anch p) orig cur = .ok (res, .anchoring rep) := by
+    rw [prog_applyBias_anchoring_eq, h]; rfl
+  exact ⟨res, .anchoring rep, happly, inline_anchoring_preserves_coherence hc hfn happly⟩
+
+/-- **anchoring with the newCriterion applier never fails** for the five admitting methods on a coherent state
+    that is `prog_newCriterionReady` (exact values, admitting method with a known levels function, parameters
+    keyed by current criteria, at least one criterion — all true of the state an accepted request starts from
+    when they are true of the request), under `prog_anchPropsOk` (which for this applier includes a registered
+    `referenceCriterionType`).  Streams in [0,1): one number for the reference criterion, the listener's numbers
+    in the stream of `randomSeed + 0` (the registered evaluators return a single reference point). -/
+theorem newCriterion_anchoring_as_first_bias_never_fails {exp : Rat → Rat} {g : Int → Draws Rat}
+    {orig cur : DMP Rat} {p : AnchProps Rat} (hc : Spec.C07.coherent cur = true)
+    (hp : prog_anchPropsOk cur p = true) (hready : prog_newCriterionReady cur = true)
+    (hu : ∀ k ∈ (BProps.anch p).seeds, ∀ u ∈ g k, 0 ≤ u ∧ u < 1)
+    (hg : ∀ k ∈ (BProps.anch p).seeds, prog_listenerDraws cur.mp + 1 ≤ (g k).length) :
+    ∃ res rep, applyBias exp g Facts.biasAnchoring (.anch p) orig cur = .ok (res, rep) ∧
+      Spec.C07.coherent res = true := by
+  obtain ⟨rest, hgens⟩ := prog_anchGens p g
+  have hs1 : p.applier.params.seed "newCriterionRandomSeed" ∈ (BProps.anch p).seeds := by simp [BProps.seeds]
+  have hs2 : p.applier.params.seed "randomSeed" + Int.ofNat 0 ∈ (BProps.anch p).seeds := by
+    simp only [BProps.seeds, List.mem_cons]
+    right
+    unfold anchGenSeeds anchGenCount
+    exact List.mem_map.mpr ⟨0, by simp, rfl⟩
+  obtain ⟨res, rep, h⟩ := prog_anchoringApply_total (exp := exp)
+    (rd := g (p.applier.params.seed "newCriterionRandomSeed")) (gens := (anchGenSeeds p).map g)
+    ((coherent_iff _).mp hc) hp (Or.inr ⟨hready, by have := hg _ hs1; omega,
+      hu _ hs1, _, rest, hgens, by have := hg _ hs2; omega⟩)
+  have happly : applyBias exp g Facts.biasAnchoring (.anch p) orig cur = .ok (res, .anchoring rep) := by
+    rw [prog_applyBias_anchoring_eq, h]; rfl
+  have hadm : admitsAdditions cur.mp = true := by
+    unfold prog_newCriterionReady at hready
+    simp only [Bool.and_eq_true] at hready
+    exact hready.1.1.1.2
+  exact ⟨res, .anchoring rep, happly, newCriterion_anchoring_preserves_coherence hc hadm happly⟩
+
+/-- the hypotheses of the K3 theorems are jointly satisfiable — discharged on a concrete majority state
+    (Lemmas/DecideProgressExample.lean) with all-default concealment props, … -/
+example : ∃ res rep, applyBias (fun x => x) prog_exGen Facts.biasConcealment (.flat {}) prog_exMajority
+    prog_exMajority = .ok (res, rep) ∧ Spec.C07.coherent res = true :=
+  concealment_as_first_bias_never_fails (by decide +kernel) (by decide +kernel) (by decide +kernel)
+    (by decide +kernel) (by decide +kernel) (List.cons_ne_nil _ _) (by decide +kernel)
+    (fun k _ => prog_exGen_unit k) (fun _ _ => Nat.le_refl 4)
+
+/-- … anchoring to the ideal point with the newCriterion applier, … -/
+example : ∃ res rep, applyBias (fun x => x) prog_exGen Facts.biasAnchoring (.anch prog_exAnchNew) prog_exMajority
+    prog_exMajority = .ok (res, rep) ∧ Spec.C07.coherent res = true :=
+  newCriterion_anchoring_as_first_bias_never_fails (by decide +kernel) (by decide +kernel) (by decide +kernel)
+    (fun k _ => prog_exGen_unit k) (fun _ _ => (by decide : (2 : Nat) ≤ 4))
+
+/-- … and to the nadir point with the inline applier -/
+example : ∃ res rep, applyBias (fun x => x) prog_exGen Facts.biasAnchoring (.anch prog_exAnchInline)
+    prog_exMajority prog_exMajority = .ok (res, rep) ∧ Spec.C07.coherent res = true :=
+  inline_anchoring_never_fails (by decide +kernel) (by decide +kernel) rfl
+
+/-! ### K4 — the biases list of the response (corollaries of C08 on `resp.biases`) -/
+
+/-- every enabled bias of the request appears in `resp.biases`, in order, with name and probability echoed, and
+    its `applied` flag (a report is present) is `draw < probability` for the i-th number of the
+    `biasApplyRandomSeed` stream (C08 `process_entries`, read on the response of `MakeDecision`) -/
+theorem response_lists_every_bias_with_its_flag {exp : α → α} {o : List (WCrit α) → List (WCrit α)}
+    {req : Request α} {g : Int → Draws α} {resp : Response α} (h : decideWith exp o req g = .ok resp) :
+    ∃ params chosen, prepare req = .ok (params, chosen) ∧ resp.biases.length = chosen.length ∧
+      ∀ i (hi : i < resp.biases.length) (hc : i < chosen.length) (hd : i < (g req.biasSeed).length),
+        resp.biases[i].name = chosen[i].name ∧ resp.biases[i].prob = chosen[i].prob ∧
+          resp.biases[i].report.isSome = decide ((g req.biasSeed)[i] < chosen[i].prob) := by
+  unfold decideWith at h
+  obtain ⟨⟨fin, outs⟩, hp, h⟩ := bind_eq_ok.mp h
+  obtain ⟨res, _, h⟩ := bind_eq_ok.mp h
+  simp only [pure, Except.pure, Except.ok.injEq] at h
+  subst h
+  unfold pipeline at hp
+  obtain ⟨⟨params, chosen⟩, hprep, hp⟩ := bind_eq_ok.mp hp
+  obtain ⟨h1, h2⟩ := Rdm.Props.C08.process_entries _ _ chosen params (g req.biasSeed) fin outs hp
+  exact ⟨params, chosen, hprep, h1, h2⟩
+
+/-- a bias that does not fire leaves the state untouched: if no entry of `resp.biases` carries a report, the state
+    that reached the method is the one built from the request (C08 `nothing_fires_state_unchanged`) -/
+theorem unfired_biases_leave_the_state_untouched {exp : α → α} {o : List (WCrit α) → List (WCrit α)}
+    {req : Request α} {g : Int → Draws α} {resp : Response α} (h : decideWith exp o req g = .ok resp)
+    (hn : ∀ b ∈ resp.biases, b.report = none) :
+    ∃ params chosen, prepare req = .ok (params, chosen) ∧ resp.final = params := by
+  unfold decideWith at h
+  obtain ⟨⟨fin, outs⟩, hp, h⟩ := bind_eq_ok.mp h
+  obtain ⟨res, _, h⟩ := bind_eq_ok.mp h
+  simp only [pure, Except.pure, Except.ok.injEq] at h
+  subst h
+  unfold pipeline at hp
+  obtain ⟨⟨params, chosen⟩, hprep, hp⟩ := bind_eq_ok.mp hp
+  exact ⟨params, chosen, hprep, Rdm.Props.C08.nothing_fires_state_unchanged _ _ chosen params _ fin outs hp hn⟩
 
 end Rdm.Props.C07
